@@ -22,6 +22,7 @@ import (
 	"strings"
 	"testing"
 
+	rhp2 "go.sia.tech/core/rhp/v2"
 	"pgregory.net/rapid"
 	"verif/harness/gen"
 	"verif/harness/stats"
@@ -144,6 +145,12 @@ func (c *DecodeCase) UnmarshalJSON(b []byte) error {
 // (types.Decoder checks prefixes against N), which is by design and bounded by N.
 // It is added to the budget and such cases are labelled. 0 for plain DecodeFrom.
 func limitSlack(e *gen.Entry, hint reflect.Value) uint64 {
+	if e.Name == "rhp2.RPCReadResponse" {
+		// since fix 85d8f3f the decoder rejects data lengths above rhp2.SectorSize and
+		// allocates (or reuses) a buffer of the announced length below it: a
+		// protocol-declared bound of the same kind
+		return rhp2.SectorSize
+	}
 	h := hint
 	if !h.IsValid() {
 		h = reflect.Zero(e.Type)
